@@ -16,6 +16,20 @@ the bound method `_CategoryUnitChange` (Register is idempotent, Unregister of an
 no-op), so it is the bit `USys.listening`.  The manager's own `on_current` / `on_unit_changed`
 callbacks are the observable log: every call appends `Event`s.
 
+Value objects (`Register(obj)`): the manager keeps `_IdentityWrap`s (a weak reference each, identity hash:
+every `Register` call adds a new wrap, the `_OnRefKilled` callback of a dying object removes its wraps)
+and rewrites `obj.unit` from the current system at `Register` and in `UpdateObjects` (called at the end
+of EVERY `SetCurrent`, and by nobody else: a default-unit change of the current system fires
+`on_unit_changed` but does not touch the objects).  `Mgr.objs` lists every value object ever registered
+with what the manager uses of it (`GetCategory()`, the settable attribute `unit`, alive or not, number of
+wraps).  Objects whose `unit` cannot be assigned (every barril `Scalar`/`Array`: read-only property) make
+`UpdateObjects` raise after the state changed; they are not modelled (finding C17-updateobjects-readonly-unit).
+
+Listeners of the manager's own callbacks: `Res.log` lists the INVOCATIONS of `on_current` /
+`on_unit_changed`; the observer's two listeners are the bits `obsCur` / `obsUnit` (`ResetInstance`
+clears both, `on_current.Register(f)` / `on_unit_changed.Register(f)` set one), and `seen` is what the
+observer receives.
+
 Modelled as the code is NOW (after `fix:` b44ce2a and b5b3988): `UnitSystem.__init__` copies the
 mapping, `RemoveUnitSystem` works when nothing is current, `SetCurrent` accepts ANY system
 (registered or not: known finding C17-setcurrent-unregistered), `SetDefaultUnit` checks neither the
@@ -100,6 +114,34 @@ manager's listener is registered on this system -/
 def USys.fire (o : USys) (c : Sym) (u : Option Sym) : List Event :=
   if o.listening then [.unitChanged c u] else []
 
+/-! ### value objects -/
+
+/-- what the manager uses of a registered `AbstractValueWithQuantityObject` -/
+structure VObj where
+  /-- `GetCategory()` -/
+  cat : Sym
+  /-- the attribute `unit` -/
+  unit : Sym
+  /-- number of `_IdentityWrap`s of this object in `_object_refs` -/
+  wraps : Nat
+  /-- the caller still holds the object (a dead object is only remembered by the model) -/
+  alive : Bool
+deriving DecidableEq, Repr
+
+/-- `unit = system.GetDefaultUnit(obj.GetCategory()); if unit is not None: obj.unit = unit` for a live
+object (a dead one has no wrap left / its `wrap.ref()` is `None`) -/
+def VObj.update (s : USys) (o : VObj) : VObj :=
+  if o.alive then
+    match s.getDefaultUnit o.cat with
+    | some u => { o with unit := u }
+    | none => o
+  else o
+
+/-- the same guarded by `if current is not None` -/
+def VObj.refresh : Option USys → VObj → VObj
+  | none, o => o
+  | some s, o => o.update s
+
 /-! ### `UnitSystemManager` -/
 
 structure Mgr where
@@ -110,6 +152,12 @@ structure Mgr where
   cur : Option Nat
   /-- `_unit_system_template` (not in `heap`: callers only read its mapping) -/
   tmpl : Option USys
+  /-- every value object ever passed to `Register`, in order of first registration -/
+  objs : List VObj
+  /-- the observer's listener is registered on `on_current` -/
+  obsCur : Bool
+  /-- the observer's listener is registered on `on_unit_changed` -/
+  obsUnit : Bool
 deriving DecidableEq, Repr
 
 def symNull : Sym := Sym.ofString "Null"
@@ -119,7 +167,7 @@ def symTemplateCaption : Sym := Sym.ofString "Unit system template"
 def nullSys : USys := USys.new none symNull [] true
 
 /-- `UnitSystemManager.__init__` -/
-def Mgr.init : Mgr := ⟨[nullSys], [], none, none⟩
+def Mgr.init : Mgr := ⟨[nullSys], [], none, none, [], false, false⟩
 
 inductive Out
   | none
@@ -159,10 +207,21 @@ def unregisterCurrent (m : Mgr) : List USys :=
   | none => m.heap
   | some c => setListening m.heap c false
 
-/-- `SetCurrent(unit_system)` (`UpdateObjects` is a no-op: no value object is registered) -/
+/-- the object in `self._current` -/
+def Mgr.curSys (m : Mgr) : Option USys :=
+  match m.cur with
+  | none => none
+  | some c => m.heap[c]?
+
+/-- `UpdateObjects()`: every live registered object takes the current system's default unit of its
+category, if there is one (the order of the set iteration does not matter: the objects are independent) -/
+def updateObjects (m : Mgr) : Mgr := { m with objs := m.objs.map (VObj.refresh m.curSys) }
+
+/-- `SetCurrent(unit_system)`: move the listener, notify `on_current`, then `UpdateObjects()` -/
 def setCurrent (m : Mgr) : Option Nat → Mgr × List Event
-  | none => ({ m with heap := unregisterCurrent m, cur := none }, [.current 0])
-  | some a => ({ m with heap := setListening (unregisterCurrent m) a true, cur := some a }, [.current a])
+  | none => (updateObjects { m with heap := unregisterCurrent m, cur := none }, [.current 0])
+  | some a =>
+    (updateObjects { m with heap := setListening (unregisterCurrent m) a true, cur := some a }, [.current a])
 
 /-- address of the object `GetCurrent()` returns -/
 def Mgr.currentAddr (m : Mgr) : Nat :=
@@ -276,6 +335,61 @@ def convertScalarToCurrent (db : Db) (m : Mgr) (c u : Sym) (x : Rat) : Except Er
     if t == u then .ok (.scalar y u c)
     else if db.categoryUnitValid c t then .ok (.scalar y t c) else .error .units
 
+/-! ### value objects, observers, caption / read-only flag -/
+
+/-- `Register(obj)` for an object the manager has not seen: one new wrap, and the object is brought to
+the current system at once -/
+def registerNew (m : Mgr) (c u : Sym) : Res :=
+  ⟨{ m with objs := m.objs ++ [VObj.refresh m.curSys ⟨c, u, 1, true⟩] }, .ok .none, []⟩
+
+/-- `Register(obj)` for the (live) object number `i` again: ANOTHER wrap (`_IdentityWrap` defines neither
+`__eq__` nor `__hash__`), and the object is brought to the current system -/
+def registerAgain (m : Mgr) (i : Nat) : Res :=
+  match m.objs[i]? with
+  | none => Res.reject m .other
+  | some o =>
+    if o.alive then
+      ⟨{ m with objs := m.objs.set i (VObj.refresh m.curSys { o with wraps := o.wraps + 1 }) }, .ok .none, []⟩
+    else Res.reject m .other
+
+/-- the caller drops its last reference to object `i`: `_OnRefKilled` removes every wrap of it -/
+def killObj (m : Mgr) (i : Nat) : Res :=
+  match m.objs[i]? with
+  | none => Res.reject m .other
+  | some o => ⟨{ m with objs := m.objs.set i { o with wraps := 0, alive := false } }, .ok .none, []⟩
+
+/-- the caller assigns `obj.unit = u` itself (no call into the library) -/
+def objSetUnit (m : Mgr) (i : Nat) (u : Sym) : Res :=
+  match m.objs[i]? with
+  | none => Res.reject m .other
+  | some o =>
+    if o.alive then ⟨{ m with objs := m.objs.set i { o with unit := u } }, .ok .none, []⟩
+    else Res.reject m .other
+
+/-- `ResetInstance()`: `UnregisterAll` on both callbacks of the manager — and nothing else (registry,
+current system, the manager's own listener on the current system and the registered objects stay) -/
+def resetInstance (m : Mgr) : Res := ⟨{ m with obsCur := false, obsUnit := false }, .ok .none, []⟩
+
+/-- `system.SetCaption(caption)` -/
+def setCaption (m : Mgr) (a : Nat) (cap : Sym) : Res :=
+  match m.heap[a]? with
+  | none => Res.reject m .other
+  | some o => ⟨{ m with heap := m.heap.set a { o with caption := cap } }, .ok .none, []⟩
+
+/-- `system.SetReadOnly(flag)` (the flag is stored and compared by `__eq__`; nothing consults it) -/
+def setReadOnly (m : Mgr) (a : Nat) (b : Bool) : Res :=
+  match m.heap[a]? with
+  | none => Res.reject m .other
+  | some o => ⟨{ m with heap := m.heap.set a { o with readOnly := b } }, .ok .none, []⟩
+
+/-- which invocations of the manager's callbacks reach the observer -/
+def Event.seenBy (m : Mgr) : Event → Bool
+  | .current _ => m.obsCur
+  | .unitChanged _ _ => m.obsUnit
+
+/-- what the observer receives of a callback log produced in state `m` -/
+def seen (m : Mgr) (log : List Event) : List Event := log.filter (Event.seenBy m)
+
 /-! ### `GetNewId` -/
 
 /-- `"%d" % n`, most significant digit first, as bytes -/
@@ -320,6 +434,22 @@ inductive Op
   | getById (id : Sym)
   | getUnitSystems
   | getCurrent
+  /-- `Register(obj)` with a new object of category `c` and unit `u` -/
+  | register (c u : Sym)
+  | registerAgain (i : Nat)
+  | kill (i : Nat)
+  | objSetUnit (i : Nat) (u : Sym)
+  /-- a direct call of the public `UpdateObjects()` -/
+  | updateObjects
+  | resetInstance
+  /-- `on_current.Register(observer)` -/
+  | observeCurrent
+  /-- `on_unit_changed.Register(observer)` -/
+  | observeUnit
+  | setCaption (a : Nat) (cap : Sym)
+  | setReadOnly (a : Nat) (b : Bool)
+  /-- `system == x` for an `x` that is no unit system -/
+  | sysEqOther (a : Nat)
 deriving Repr
 
 /-- one public call on the manager or on one of its unit systems -/
@@ -366,6 +496,20 @@ def step (db : Db) (m : Mgr) : Op → Res
     | none => Res.reject m .value
   | .getUnitSystems => Res.answer m (.systems m.reg)
   | .getCurrent => Res.answer m (.sys m.currentAddr)
+  | .register c u => registerNew m c u
+  | .registerAgain i => registerAgain m i
+  | .kill i => killObj m i
+  | .objSetUnit i u => objSetUnit m i u
+  | .updateObjects => ⟨updateObjects m, .ok .none, []⟩
+  | .resetInstance => resetInstance m
+  | .observeCurrent => ⟨{ m with obsCur := true }, .ok .none, []⟩
+  | .observeUnit => ⟨{ m with obsUnit := true }, .ok .none, []⟩
+  | .setCaption a cap => setCaption m a cap
+  | .setReadOnly a b => setReadOnly m a b
+  | .sysEqOther a =>
+    match m.heap[a]? with
+    | some _ => Res.answer m (.bool false)
+    | none => Res.reject m .other
 
 /-- the manager after a history -/
 def run (db : Db) (m : Mgr) : List Op → Mgr
@@ -376,5 +520,10 @@ def run (db : Db) (m : Mgr) : List Op → Mgr
 def runLog (db : Db) (m : Mgr) : List Op → List Event
   | [] => []
   | op :: ops => (step db m op).log ++ runLog db (step db m op).mgr ops
+
+/-- what the observer receives during a history -/
+def runSeen (db : Db) (m : Mgr) : List Op → List Event
+  | [] => []
+  | op :: ops => seen m (step db m op).log ++ runSeen db (step db m op).mgr ops
 
 end Barril.Mgr
